@@ -36,13 +36,13 @@ CHECKS = {
    technique='Coq proof of the yield invariant + kernel-computed finite equivalence with a reference + differential correspondence',
    ref='DESIGN.md §6 C02'),
  'C03': dict(
-   text='Same refinement theorem as C01 specialised to bounded repetition (literal and run-time bounds, the spec makes no '
-        'claim for a run-time lower bound above the upper bound) and Sep with its four options: greedy up to the upper '
+   text='Same refinement theorem as C01 specialised to bounded repetition (literal and run-time bounds; a run-time lower bound above the upper '
+        'bound makes the list fail: Refine.rep_conflict_ok) and Sep with its four options: greedy up to the upper '
         'bound, failure below the lower bound, trailing separator consumed iff allow_trailer, allow_empty/require_separator, '
         'and no effect of an uncompleted list on the enclosing alternative/continuation (position restored, by the flag '
         'soundness clause). Correspondence: elements that can fail after consuming x bounds 0..3 in all four surface forms x '
         'six data-dependent forms x all 12 accepted Sep option combinations x seven contexts x all short inputs.',
-   note=TB + 'e{m,n} with run-time m > n is outside the property (constructor rejects it for literals); listed in DESIGN.md.',
+   note=TB + 'e{m,n} with run-time m > n was first left unspecified; it is now specified (the list fails), proved and repaired in /repo (see DESIGN.md, defect D41).',
    technique='Coq refinement proof + differential correspondence via extracted OCaml model',
    ref='DESIGN.md §6 C03'),
  'C04': dict(
@@ -136,7 +136,8 @@ CHECKS = {
         'call site of C06, an operator table, classes with ignore) is compiled unnamed, named, with include_source on/off and a second '
         'time, and the emitted _source_code is executed on its own in `python -I -S` with neither site-packages nor the repository on '
         'sys.path (self-containedness); all variants must return equal values (with spans) or raise the same error class at the '
-        'same position on every input. In the Coq model a `grammar <name>` header has no semantic effect at all (it only threads '
+        'same position on every input; the entry points of rules, classes and parameterised classes with and without a header; inline '
+        'Python whose behaviour depends on the compilation mode (assert, __debug__, docstrings, annotations). In the Coq model a `grammar <name>` header has no semantic effect at all (it only threads '
         'one more parameter through every generated signature and call), which is what the named-vs-unnamed runs confirm for the code.',
    note=TB + 'partial: the theorems (Props/C11.v) cover the one semantic switch, uses_context; that CPython executes the emitted text the same way in a fresh module, include_source and repeated compilation are decided by differential runs (DESIGN.md §9).',
    technique='Coq proof of the calling-convention core (Conv.v: every call binds, a grammar name is irrelevant) + differential execution of 5 in-process variants and of the emitted source in an isolated interpreter',
@@ -147,7 +148,9 @@ CHECKS = {
         'the shipped parser) accepts grammar.txt and equals the shipped sourcer/parser.py textually (header line aside); generation 2 '
         '(the same with generation 1 installed) equals generation 1 byte for byte. Because generation 0 and 1 are the same program text, '
         'their agreement on ALL grammar descriptions follows from that identity; a corpus run (every grammar string of the repository\'s '
-        'tests/docs/examples, generated descriptions, ~1500 corrupted variants: tree repr or error class and position) cross-checks it.',
+        'tests/docs/examples, generated descriptions, deeply nested descriptions, ~1500 corrupted variants: tree repr or error class and '
+        'position) cross-checks it, with the IN-MEMORY generation 1 (the module Grammar() returns, which is what "compiling grammar.txt '
+        'with the current code" yields) as a third candidate.',
    note=TB + 'no theorem about generate_parser.py; the meaning of the meta-grammar itself is covered by the C01-C06 theorems applied to grammar.txt like to any grammar.',
    technique='Coq lemmas for the inference (a reproduced text is reproduced forever; same text, same behaviour) + concrete textual fixed-point check of bootstrap generations 0/1/2 + differential corpus run',
    ref='DESIGN.md §6 C12'),
@@ -159,8 +162,9 @@ CHECKS = {
         'grammar whatever grammar the parse was started through). The behaviour of the modules is decided by comparing every '
         'generated chain (2-3 named grammars over a 4-rule base, every mix of overridden/inherited/new rules, super at every '
         'level, ignore declarations in base and/or derived, modules used in random order) with its FLATTENED grammar on ~250 '
-        'inputs, the parent before/after, and inherited entry points.',
-   note=TB + 'partial: importlib/sys.modules plumbing, re-parsing of the parent\'s description and ignore handling are covered by the differential runs only. Known finding: entry points of inherited rules/classes run with the parent\'s context.',
+        'inputs, every entry point of the parent before/after, and inherited entry points; chains with templates, rule arguments, super '
+        'calls with arguments, qualified grammar names, an ignore pattern of its own at every level, a class.',
+   note=TB + 'partial: importlib/sys.modules plumbing, re-parsing of the parent\'s description and ignore handling are covered by the differential runs only. Known finding (narrowed): entry points of inherited CLASSES run with the parent's context (for inherited rules repaired in /repo). Formerly: entry points of inherited rules/classes run with the parent\'s context.',
    technique='Coq proof on a context-resolution model + differential comparison of grammar chains with their flattened grammar',
    ref='DESIGN.md §6 C13'),
  'C14': dict(
@@ -176,19 +180,25 @@ CHECKS = {
  'C15': dict(
    text='Coq theorems over trees whose nodes carry CPython identities (any assignment): C15_visit_is_dfs (the explicit-stack '
         'loop of visit = recursive preorder with first-occurrence de-duplication of objects, through fields, lists, tuples, '
-        'dict values), C15_visit_once (NoDup, nothing already visited), C15_traverse_spec (the explicit-stack loop of traverse '
+        'dict values), C15_visit_once (NoDup, nothing already visited), C15_visit_marks_containers / _marked_once / _marked_complete (visit as '
+        'repaired: one visited set for objects AND containers; the loop equals the recursive specification with containers '
+        'de-duplicated; nothing reachable is lost when an identity stands for one node), C15_traverse_spec (the explicit-stack loop of traverse '
         'emits exactly the bracketed recursive event sequence: one entering and one finished event per occurrence, containers '
         'expanded at their first occurrence only, repeated equal leaves each reported). Correspondence: random trees with '
         'controlled sharing and leaf identity, list(visit) by identity and list(traverse) as (parent, field, child, finished) '
         'events against the extracted loops and the extracted recursive specifications; depth up to 10^5 on the implementation.',
-   note=TB + 'absence of RecursionError is an observation on the implementation (the Python stack is not modelled).',
-   technique='Coq proof (explicit-stack loop = recursive spec) + differential correspondence on random trees',
+   note=TB + 'absence of RecursionError, termination on containers that contain themselves and the number of expansions of a shared container are observations on the implementation (cyclic structures are not expressible in the finite tree model).',
+   technique='Coq proof (explicit-stack loop = recursive spec, completeness under consistent identities) + differential correspondence on random trees + specification streams on cyclic/shared containers',
    ref='DESIGN.md §6 C15'), 'C16': dict(
    text='Coq theorems on a model of transform/_transform over trees with identities and metadata, threading the supply of fresh '
         'identities and the callback log: C16_identity (identity callback: same shape, classes and metadata; the very same '
         'object unless a list sits below it), C16_once (the callbacks are applied exactly once per object occurrence of the '
         'input, whatever they return), C16_children_first (the parent is rebuilt from its transformed children and passed to the '
-        'callbacks last), C16_metadata_inherited / C16_metadata_own_kept, C16_chain_of_identities. Correspondence: random trees x '
+        'callbacks last), C16_metadata_inherited / C16_metadata_own_kept, C16_chain_of_identities, C16_chain_keeps_metadata (ANY chain of '
+        'callbacks that bring no metadata of their own: a result that is a parsed object carries the metadata of the node it stands '
+        'for, whatever scalars, lists or copies lie in between; false of the shipped chain: C16_shipped_chain_refuted, repaired in '
+        '/repo). Specification streams on the implementation: callbacks returning equal-but-distinct copies (every object of the '
+        'result must be one the callback returned), node -> scalar -> fresh object (metadata), callback count. Correspondence: random trees x '
         'chains of 1-3 callbacks from a closed family (replace by fresh object with/without metadata, by scalar, by list, by a '
         '_replace copy, by an existing child), result tree with its identity relation to the input, metadata of every node, '
         'callback log, deep snapshot of the input before and after.',
